@@ -6,7 +6,7 @@ sys.path.insert(0, os.path.join(ROOT, "tools"))
 import gen
 
 TRUST = ("Trusted base: the shim of assumed contracts on cosmwasm-std 2.0.2 / cw-storage-plus 2.0.0 / cw-utils / cw-controllers / cw2 "
-         "(every external_body / axiom / assume_specification is listed in the evidence file on each run), environment assumptions A1-A7 "
+         "(every external_body / axiom / assume_specification is listed in the evidence file on each run), environment assumptions A1-A8 "
          "(DESIGN.md 5.4), structural semantics of derived Clone/PartialEq/Default, rustc + Verus 0.2026.09.13 + Z3. "
          "Assumed leaves (not verified by Verus) are named in the evidence under assumed_leaves / bounded.")
 
@@ -15,17 +15,17 @@ CLAIMS = {
             "7 C01", "function contracts + sum-over-storage invariant + history lemma (Verus); validate_accounts verified via assumed sort/dedup contracts"),
     "C02": ("Verus proves exact step relations for transfer/send/burn and the *_from handlers (debit only of sender or of an owner under an unexpired sufficient allowance, allowance lowered by exactly the amount, exactly one Receive notification naming the true initiator), exact increase/decrease relations, and an inductive budget lemma drawn + remaining <= granted over every history.",
             "7 C02", "function contracts + per-step lemmas + inductive budget lemma (Verus)"),
-    "C13": ("Verus proves mint requires sender == stored minter and supply+amount <= cap, update_minter requires the current minter and copies the cap, every other handler leaves minter/cap alone, instantiate establishes supply <= cap; history lemma: None is absorbing, cap constant while a minter exists, supply <= cap always.",
+    "C13": ("Verus proves mint requires sender == stored minter and supply+amount <= cap, update_minter requires the current minter and copies the cap, every other handler leaves minter/cap alone, instantiate establishes supply <= cap; history lemma: None is absorbing, cap constant while a minter exists, supply <= cap always. Success direction: the minter can mint up to and including the cap.",
             "7 C13", "function contracts + cap invariant + history lemma (Verus)"),
     "C04": ("Verus proves on the real packages/cw3 code that votes_needed(w,p) == ceil(floor(1e9*w*p/1e18)/1e9) with the u64 cast in range and no overflow (strict shim), that is_passed/is_rejected equal spec functions written from the cw3 threshold rules for every valid threshold and tally <= total, and lemmas: exact for <=9 decimals, within one vote and never stricter for 18, monotone, p/(1-p) complement, never both passed and rejected, early Passed/Rejected sound for every completion, Passed needs yes > 0.",
             "7 C04", "function contracts against spec functions + nonlinear arithmetic lemmas (Verus)"),
     "C03": ("Verus proves Proposal::current_status/update_status == spec_status written from the cw3 threshold rules (on the real packages/cw3 code), that both multisigs recompute and store exactly that on every vote, admit Execute only when it is Passed and Close only when expired and not Passed, and keep the stored tally equal, kind by kind, to the recorded ballots (sum-over-storage invariants); Passed needs yes > 0.",
             "7 C03", "function contracts + spec-function equality + sum-over-storage invariants (Verus)"),
-    "C05": ("Verus proves whole-state step relations of propose/vote/execute/close of both multisigs: next id = count+1, expiry clamped to the maximum voting period, Execute only on Passed (and authorised in flex) storing Executed and dispatching exactly the proposal's messages (after the refund), Close only on expired non-passed proposals dispatching nothing but the refund; lemmas: content fixed, stored status only moves forward, at most one successful Execute per proposal over any history.",
+    "C05": ("Verus proves whole-state step relations of propose/vote/execute/close of both multisigs: next id = count+1, expiry clamped to the maximum voting period, Execute only on Passed (and authorised in flex) storing Executed and dispatching exactly the proposal's messages (after the refund), Close only on expired non-passed proposals dispatching nothing but the refund; lemmas: content fixed, stored status only moves forward, at most one successful Execute per proposal over any history. Success direction: Execute of a Passed proposal by an entitled caller (anyone, the configured address, or a group member) and Close of an expired unpassed proposal go through; refused Close / Execute calls leave no trace.",
             "7 C05", "function contracts + lifecycle lemmas over histories (Verus)"),
-    "C06": ("fixed: Verus proves total_weight == sum of the voter table (instantiate loop invariant; duplicate voters rejected after fix 9201625), one ballot per voter with the voter's table weight >= 1 (proposer's implicit Yes may be 0), tally == weight of voters with a ballot <= total, voter table immutable. flex: ballot weight == the group's Member{at_height: start_height} answer >= 1 via verified cw4 helper contracts; the two snapshot clauses of Propose are recorded known findings (D3).",
+    "C06": ("fixed: Verus proves total_weight == sum of the voter table (instantiate loop invariant; duplicate voters rejected after fix 9201625), one ballot per voter with the voter's table weight >= 1 (proposer's implicit Yes may be 0), tally == weight of voters with a ballot <= total, voter table immutable. flex: ballot weight == the group's Member{at_height: start_height} answer >= 1 via verified cw4 helper contracts; the two snapshot clauses of Propose are recorded known findings (D3). Success direction: an entitled voter (fixed list weight >= 1 / snapshot weight >= 1) on a votable, unexpired proposal without a ballot is never refused.",
             "7 C06", "function contracts + weighted-sum invariants + group oracle (Verus)"),
-    "C15": ("Verus proves on packages/cw3/deposit.rs and cw3-flex: Propose succeeds only if exactly the configured native amount is attached or emits exactly one cw20 TransferFrom of the amount from the proposer; Execute always emits exactly one refund to the proposer when a deposit exists; Close emits the refund iff refund_failed_proposals; no other call emits messages. Recoverability of voted-down deposits is a recorded known finding (D6); created-expired proposals fixed (426f6f3).",
+    "C15": ("Verus proves on packages/cw3/deposit.rs and cw3-flex: Propose succeeds only if exactly the configured native amount is attached or emits exactly one cw20 TransferFrom of the amount from the proposer; Execute always emits exactly one refund to the proposer when a deposit exists; Close emits the refund iff refund_failed_proposals; no other call emits messages. Recoverability of voted-down deposits is a recorded known finding (D6); created-expired proposals fixed (426f6f3). Success direction: Close goes through on every expired proposal that did not pass (so the deposit is recoverable), Execute on every passed one for an entitled caller; the refund message is always constructible.",
             "7 C15", "function contracts on emitted messages + known-finding variants (Verus)"),
     "C07": ("Verus proves for cw1-whitelist Execute: Ok <=> sender is a listed admin, messages == exactly the submitted ones in order, storage untouched; for cw1-subkeys Execute an exact success condition (admin, or every message covered in order by permissions / unexpired sufficient allowance, threaded through a loop invariant), exact relay, and that only the caller's own allowance entry changes.",
             "7 C07", "function contracts with exact (iff) success conditions + loop invariant (Verus)"),
@@ -33,19 +33,19 @@ CLAIMS = {
             "7 C08", "function contracts + loop invariant + per-denomination lemmas (Verus)"),
     "C16": ("Both code paths get exact contracts over one spec predicate: CanExecute returns exec_ok(state, block, sender, [msg]) and Execute succeeds iff exec_ok(state, block, sender, msgs); the lemma instantiates msgs = [msg]. Any divergence of either path fails its own obligation.",
             "7 C16", "relational: two exact contracts over one shared spec predicate (Verus)"),
-    "C17": ("Verus proves Freeze/UpdateAdmins succeed only for a listed admin while mutable and write exactly the new list/flag, every other handler leaves the admin list alone, allowance/permission changes require a listed admin; lemmas: immutable is absorbing over any history.",
+    "C17": ("Verus proves Freeze/UpdateAdmins succeed only for a listed admin while mutable and write exactly the new list/flag, every other handler leaves the admin list alone, allowance/permission changes require a listed admin; lemmas: immutable is absorbing over any history. Success direction: IncreaseAllowance and SetPermissions are never refused to a current admin (also when the list is frozen).",
             "7 C17", "function contracts + frames + absorbing-state lemma (Verus)"),
     "C09": ("Verus proves for cw4-group (create, update_members with both loops, dispatcher) and cw4-stake (update_membership, bond/unbond/claim, dispatcher) that TOTAL == sum of the member table is an inductive invariant, that every member/total write passes the current block height and every at-height query goes through may_load_at_height; the sentence 'value at the start of block h' is then a lemma proved over the ASSUMED SnapshotMap model (first changelog entry >= h, else current) for every history of writes at non-decreasing heights and every h. validate_unique_members is verified too (sort_by / neighbour pairs via assumed std contracts); instantiate stores exactly the given members; the query entry points route Member / TotalWeight with their at_height to those functions. The raw-key layout of member_key is an assumed leaf with a bounded Kani stand-in (thorough tier).",
             "7 C09", "function contracts + sum invariant + loop invariants + snapshot lemma over the assumed dependency model (Verus)"),
-    "C10": ("Verus proves on cw4-stake: only the configured native denom / cw20 contract is accepted and the stake grows by exactly the provided amount; unbond checked-subtracts and creates a claim maturing at unbonding_period.after(block); Claim releases exactly the matured claims (assumed Claims contract) and emits exactly one payout of that amount to the caller; calc_weight == stake / tokens_per_weight with no truncation (fix a148515), None iff stake < min_bond, and the member entry always equals it; lemma: books = stakes + claims moves only by bond (+amount) and claim (-payout).",
+    "C10": ("Verus proves on cw4-stake: only the configured native denom / cw20 contract is accepted and the stake grows by exactly the provided amount; unbond checked-subtracts and creates a claim maturing at unbonding_period.after(block); Claim releases exactly the matured claims (assumed Claims contract) and emits exactly one payout of that amount to the caller; calc_weight == stake / tokens_per_weight with no truncation (fix a148515), None iff stake < min_bond, and the member entry always equals it; lemma: books = stakes + claims moves only by bond (+amount) and claim (-payout). Success direction: Claim goes through whenever matured claims exist; the unbond stake closure and calc_weight refuse only an uncovered amount / a weight beyond 64 bits.",
             "7 C10", "function contracts + books lemma (Verus)"),
     "C14": ("Verus proves update_members asserts the admin before any write and returns diffs that form a chain of single-member writes with the true previous and new weight of exactly the touched addresses (ghost state sequence), that execute_update_members / update_membership emit exactly one MemberChangedHook message per registered hook carrying those diffs (none when nothing changed), and that UpdateAdmin/AddHook/RemoveHook are wired to the admin-checked cw-controllers functions (assumed contracts).",
             "7 C14", "function contracts + ghost diff chain + assumed cw-controllers contracts (Verus)"),
     "C11": ("Verus proves whole-state step relations for every ics20 entry point that touches a channel balance: transfer (+amount, escrow attached or received via cw20 Receive), packet receive (voucher must carry the counterparty port/channel prefix, checked -amount, exactly one payout sub-message of the amount, reply on error), reply(Err) (+amount back), error ack / timeout (checked -amount, exactly one refund to the sender); lemmas give the per-(channel, denom) delta of each and that a reduction needs a covering balance, so payouts never exceed escrow. Real token holdings enter only through A4. parse_voucher_denom is verified against the assumed splitn semantics; Amount::from_parts / Amount::denom are assumed leaves (string code) with bounded Kani stand-ins in the thorough tier; migrate reconciles channel balances exactly for stored versions <= 0.13.0 (v2::update_balances verified: refuses more than one channel, touches nothing but channel balances; v2::update_denom assumed) and leaves them alone otherwise.",
             "7 C11", "function contracts + per-channel accounting lemmas (Verus)"),
-    "C12": ("Verus proves ibc_packet_receive never returns Err, that a success ack implies the full receive step and an error ack implies storage unchanged and no sub-message (fix 2af7d5b), that execute_transfer emits exactly one SendPacket carrying amount (<= u64::MAX), denom, true sender, receiver, memo and timeout = block time + requested/default seconds, and the exact balance deltas of ack/timeout/reply.",
+    "C12": ("Verus proves ibc_packet_receive never returns Err, that a success ack implies the full receive step and an error ack implies storage unchanged and no sub-message (fix 2af7d5b), that execute_transfer emits exactly one SendPacket carrying amount (<= u64::MAX), denom, true sender, receiver, memo and timeout = block time + requested/default seconds, and the exact balance deltas of ack/timeout/reply. Success direction: a covered refund of a failed / timed-out native transfer goes through; increase / undo of a readable channel balance never fails.",
             "7 C12", "function contracts on state and emitted messages (Verus)"),
-    "C18": ("Verus proves Allow requires the governance address and only adds or loosens an entry, no entry point removes an allow-list entry, transfer of a cw20 needs an entry or a default limit, every payout/refund sub-message carries gas_limit_for(token) (entry limit, else default), migrate keeps the allow list and sets but never unsets the default; lemma: per call an entry changes only by Allow from governance, limits only loosen.",
+    "C18": ("Verus proves Allow requires the governance address and only adds or loosens an entry, no entry point removes an allow-list entry, transfer of a cw20 needs an entry or a default limit, every payout/refund sub-message carries gas_limit_for(token) (entry limit, else default), migrate keeps the allow list and sets but never unsets the default; lemma: per call an entry changes only by Allow from governance, limits only loosen. Success direction: a transfer of an allowed token (or any cw20 when a default limit exists) on a registered channel is accepted; native amounts never fail the gas-limit lookup.",
             "7 C18", "function contracts + monotonicity lemma (Verus)"),
     "C19": ("Verus proves that every cw20-base handler preserves the mirror invariant ALLOWANCES[(o,s)] == ALLOWANCES_SPENDER[(s,o)] for every pair (increase, decrease/removal, every *_from draw write both maps with the same value), that the single-allowance query, the owner listing and the spender listing each return exactly the stored entry of their own map (listing contracts over the ASSUMED range model), a lemma that under the invariant the three views report the same amount and expiry, and that migrate of a pre-0.14 token with an empty spender map establishes the invariant (loop invariant over the owner-map listing).",
             "7 C19", "function contracts + mirror invariant + loop invariant for migration (Verus)"),
